@@ -10,6 +10,20 @@ BIL = '<interp2d::strategies::bilinear::Bilinear as interp2d::strategies::Interp
 EXTRAP = 'interp1d::strategies::cubic_spline::Extrapolate'
 
 
+STRICT = False     # True while rules about rejection / panic freedom run (C05, C06 guard tables, C14)
+
+
+class strict:
+    def __enter__(self):
+        global STRICT
+        self.prev = STRICT
+        STRICT = True
+
+    def __exit__(self, *a):
+        global STRICT
+        STRICT = self.prev
+
+
 class Outcome:
     def __init__(self, scn, kind, model, value=None, err=None, exc=None):
         self.scn, self.kind, self.m, self.value, self.err, self.exc = scn, kind, model, value, err, exc
@@ -34,6 +48,7 @@ def run_linear(lib, ext, rel):
     b = lib.body(LIN)
     scn = {'queries': {'q': 'x'}, 'rel_x': rel, 'ext': ext}
     m = KModel(scn)
+    m.assume_asserts = not STRICT
     it = Interp(lib, m)
     strat = Enum('interp1d::strategies::linear::Linear', 'Linear', {'extrapolate': B(ext)})
     io = interp1d_obj(strat)
@@ -50,6 +65,7 @@ def run_spline(lib, ext, rel):
     b = lib.body(SPL)
     scn = {'queries': {'q': 'x'}, 'rel_x': rel, 'ext': ext}
     m = KModel(scn)
+    m.assume_asserts = not STRICT
     it = Interp(lib, m)
     strat = Enum('interp1d::strategies::cubic_spline::CubicSplineStrategy', 'CubicSplineStrategy',
                  {'a': Obj('data', name='a', lead=1, idx=[]), 'b': Obj('data', name='b', lead=1, idx=[]),
@@ -67,6 +83,7 @@ def run_bilinear(lib, ext, relx, rely):
     b = lib.body(BIL)
     scn = {'queries': {'qx': 'x', 'qy': 'y'}, 'rel_x': relx, 'rel_y': rely, 'ext': ext}
     m = KModel(scn)
+    m.assume_asserts = not STRICT
     it = Interp(lib, m)
     strat = Enum('interp2d::strategies::bilinear::Bilinear', 'Bilinear', {'extrapolate': B(ext)})
     io = interp2d_obj(strat)
